@@ -219,6 +219,16 @@ def rule_e2(chk: Check) -> None:
             if isinstance(st, ast.Assign) and dotted(st.targets[0]) == "body" and not isinstance(st.value, ast.Constant):
                 srcs.add(norm(st.value))
         okb = bool(srcs) and all(s in ("self.buffer", "self.buffer.decode(charset)") or s.startswith("self.buffer.decode(") for s in srcs)
+        # ... and the buffer is an immutable `bytes` value: the binary body is handed out as
+        # it is, and consumers (the proxy relay, the server's response sink) test for `bytes`
+        ci_ = cl.cls
+        for m_ in (ci_.methods.values() if ci_ else []):
+            for st in walk(m_.node):
+                if isinstance(st, (ast.Assign, ast.AnnAssign)) and st.value is not None and any(is_self_attr(t, "buffer") for t in (st.targets if isinstance(st, ast.Assign) else [st.target])):
+                    v = st.value
+                    if isinstance(v, ast.Call) and (dotted(v.func) or "") in ("bytearray", "memoryview", "list", "io.BytesIO"):
+                        okb = False
+                        chk.finding("E2", m_.key, f"body-type:{norm(v)[:30]}", f"the receive buffer is a `{dotted(v.func)}`; a binary body is returned as that object, not as `bytes`: the reverse proxy hands it to the server's response sink, which only knows str and bytes and answers 40 instead of relaying the body", m_.loc(st))
         if not okb:
             chk.finding("E2", cl.key, f"body-source:{sorted(srcs)}", "the response body is not exactly the bytes received after the header (decoded with the declared charset for text)", cl.loc())
         chk.ob("E2", f"{cl.key}: body = buffer [decoded]", okb)
@@ -302,19 +312,30 @@ def rule_e4(chk: Check) -> None:
     ci = chk.proj.cls("client.session:GeminiClient")
     n = 0
     for fi in ci.methods.values():
-        has_conn = any(method_call(c) and method_call(c)[1] == "create_connection" for c in calls(fi.node))
+        has_conn = any(isinstance(c, ast.Call) and method_call(c) and method_call(c)[1] == "create_connection" for c in ast.walk(fi.node))
         if not has_conn:
             continue
-        for aw in [x for x in walk(fi.node) if isinstance(x, ast.Await)]:
+        # functions nested in the method (e.g. a local connect() helper) are part of it
+        nested = {fd.name: fd for fd in ast.walk(fi.node) if isinstance(fd, (ast.FunctionDef, ast.AsyncFunctionDef)) and fd is not fi.node}
+        for aw in [x for x in ast.walk(fi.node) if isinstance(x, ast.Await)]:
             txt = norm(aw.value)
-            if "create_connection" in txt or "response_future" in txt:
+            calls_nested = isinstance(aw.value, ast.Call) and isinstance(aw.value.func, ast.Name) and aw.value.func.id in nested and "create_connection" in norm(nested[aw.value.func.id])
+            if "create_connection" in txt or "response_future" in txt or calls_nested:
                 n += 1
-                ok = _bounded_await(chk, ci, aw.value, 0)
+                if calls_nested:
+                    fd = nested[aw.value.func.id]
+                    inner = [x for x in ast.walk(fd) if isinstance(x, ast.Await)]
+                    in_loop = any(isinstance(l, (ast.While, ast.For, ast.AsyncFor)) and any(isinstance(x, ast.Await) for x in ast.walk(l)) for l in ast.walk(fd))
+                    ok = bool(inner) and not in_loop and all(_bounded_await(chk, ci, a.value, 1) for a in inner)
+                else:
+                    ok = _bounded_await(chk, ci, aw.value, 0)
                 if not ok:
                     chk.finding("E4", fi.key, f"unbounded-wait:{txt[:40]}", f"`await {txt[:60]}` is not bounded by asyncio.wait_for(..., timeout=self.timeout): a server that never finishes holds the call for ever", fi.loc(aw))
                 chk.ob("E4", f"{fi.key}: `{txt[:40]}` bounded", ok)
         g = build_cfg(chk.proj, fi)
-        conn = [x for x in g.nodes if x.ast is not None and x.kind == "stmt" and any(method_call(c) and method_call(c)[1] == "create_connection" for c in calls(x.ast))]
+        from .c03 import _conn_nodes
+
+        conn = _conn_nodes(g)  # also a call of a nested helper that opens the connection
         closes = {x.id for x in g.nodes if x.ast is not None and x.kind == "stmt" and any(method_call(c) and method_call(c)[1] == "close" and dotted(method_call(c)[0]) == "transport" for c in calls(x.ast))}
         starts = [b for c in conn for b, lab in g.succ[c.id] if lab not in ("exc", "raise")]
         par = g.reach(starts, blocked_nodes=closes)
@@ -323,7 +344,7 @@ def rule_e4(chk: Check) -> None:
             which = g.exit.id if g.exit.id in par else g.raise_exit.id
             chk.finding("E4", fi.key, "transport-leak", "after a successful connection there is an exit (normal or exceptional) on which the transport is not closed", fi.loc(), g.fmt_path(g.path_to(par, which)) if which in par else [])
         chk.ob("E4", f"{fi.key}: transport closed on every exit", ok, evals=2)
-    chk.floor("E4", "awaits on connection/future", n, 4)
+    chk.require("E4", ci.key, "awaits on connection/future", n, 2, "the client no longer awaits the connection and the response")
 
 
 def _canon(fn: ast.AST) -> str:
